@@ -9,9 +9,17 @@ git -C /repo log --oneline --reverse main..ws-$n
 for c in $(git -C /repo log --format=%h --reverse main..ws-$n); do
   msg=$(git -C /repo log -1 --format=%s $c)
   case "$msg" in
-    fix:*) echo "cherry-pick $c $msg"; git -C /repo cherry-pick $c ;;
+    fix:*) echo "cherry-pick $c $msg"; git -C /repo cherry-pick $c
+           new=$(git -C /repo log -1 --format=%h)
+           echo "$c $new" >> /tmp/ws/$n/hashmap ;;
     *) echo "SKIP (not a fix: commit) $c $msg" ;;
   esac
 done
 echo "== verif merge ws-$n"
 git -C /verif merge --no-edit ws-$n
+# rewrite the worker's commit hashes in known_findings to the hashes on /repo main
+if [ -f /tmp/ws/$n/hashmap ]; then
+  while read old new; do
+    sed -i "s/\b$old\b/$new/g" /verif/known_findings/*.json /verif/design_notes/*.md 2>/dev/null || true
+  done < /tmp/ws/$n/hashmap
+fi
